@@ -560,6 +560,8 @@ impl Coll for Imports {
             ("env".into(), "b".into(), ItemKey::G),
             ("env".into(), "a".into(), ItemKey::F(1)),
             ("mod".into(), "a".into(), ItemKey::F(0)),
+            // a function import sharing (module, field) with the global import
+            ("env".into(), "b".into(), ItemKey::F(1)),
         ]
     }
     fn add(&mut self, v: &Self::Val) -> Result<ImportId, ()> {
@@ -1349,6 +1351,7 @@ fn run(ctx: &Ctx) {
                 len -= 1;
             }
             "imports" => {
+                alphabet.push(Op::Add(4));
                 alphabet.push(Op::Remove(0));
                 alphabet.push(Op::Remove(1));
                 len -= 1;
